@@ -10,10 +10,11 @@ from jsonrpclib import jsonrpc
 from harness import netpeer
 
 LOW = {"x-a": "x-a", "X-A": "x-a", "x-A": "x-a", "x-b": "x-b", "X-B": "x-b", "Content-Length": "content-length",
-       "CONTENT-type": "content-type", "User-Agent": "user-agent", "user-AGENT": "user-agent"}
+       "CONTENT-type": "content-type", "User-Agent": "user-agent", "user-AGENT": "user-agent", "Host": "host", "hOST": "host"}
 DICTS = {"e": [], "a1": [["x-a", "1"]], "A2": [["X-A", "2"]], "a3": [["x-A", "3"]], "b1": [["x-b", "1"]],
          "ab": [["X-A", "4"], ["X-B", "5"]], "cl": [["Content-Length", "0"], ["x-b", "6"]], "ct": [["CONTENT-type", "text/evil"]],
-         "ua": [["User-Agent", "ua1"]], "UA": [["user-AGENT", "ua2"], ["x-a", "7"]]}
+         "ua": [["User-Agent", "ua1"]], "UA": [["user-AGENT", "ua2"], ["x-a", "7"]],
+         "ho": [["Host", "backend.internal"]], "HO": [["hOST", "second.internal"], ["x-b", "8"]]}
 
 
 class Boom(Exception):
